@@ -496,7 +496,7 @@ Proof.
   apply Forall_forall. intros g Hg. apply Forall_forall. intros it Hit.
   rewrite forallb_forall in Hv, Hn. specialize (Hv g Hg). specialize (Hn g Hg).
   rewrite forallb_forall in Hv, Hn. specialize (Hv it Hit). specialize (Hn it Hit).
-  destruct it as [d|w|r|id]; simpl in *.
+  destruct it as [d|w|r|id|pn]; simpl in *; [| | | |discriminate].
   - discriminate.
   - apply way_decodes. exact Hv.
   - apply rel_decodes. exact Hv.
